@@ -4,6 +4,8 @@ Part 1: the codec (DTML/TreeCodec.lean).
 -/
 import DTML.TreeCodec
 import DTML.TreeState
+import DTML.GenTreeState
+import DTML.Lemmas.TreeGen
 set_option linter.unusedVariables false
 namespace DTML.Props.C20
 open DTML.TreeCodec
@@ -438,6 +440,23 @@ end DTML.Props.C20
 /-! ### Part 2: the expansion state (DTML/TreeState.lean) -/
 namespace DTML.Props.C20
 open DTML.TreeState
+
+/-! #### the model's `applyDiff` is `apply_diff` of the source
+
+`GenTreeState.applyDiffGen` is regenerated on every run by translating TreeTag.apply_diff in /repo statement by statement
+(harness/trans_tree.py): the cursor walk with its in-place changes becomes a recursion that returns the updated list (one
+iteration of the outer `while diff:` = one level; a step of the cursor into an entry rebuilds that entry with the
+result).  The search loop, the tests `loc >= 0`, `not diff and not expand`, `diff or expand` in the order of the source,
+`del s[loc]`, `s = s[loc]`, `s.append([id, []]); s = s[-1][1]` and the inner loop are emitted as they stand.  `some` on
+the right: the walk never raises an IndexError and never goes round with the cursor off an entry. -/
+theorem gen_apply_diff_is_model (state : List St) (diff : Path) (expand : Bool) :
+    GenTreeState.applyDiffGen state diff expand = some (applyDiff state diff expand) :=
+  Lemmas.TreeGen.gen_apply_diff_spec state diff expand
+
+/-- a click, as the source computes it, is `click` of the model - what the theorems below are stated about -/
+theorem gen_apply_diff_is_click (state : List St) (path : Path) (expand : Bool) :
+    GenTreeState.applyDiffGen state path expand = some (click state path expand) :=
+  gen_apply_diff_is_model state path expand
 
 @[simp] private theorem id_node (i : Nat) (k : List St) : (St.node i k).id = i := rfl
 @[simp] private theorem kids_node (i : Nat) (k : List St) : (St.node i k).kids = k := rfl
